@@ -27,7 +27,7 @@ func init() {
 	probeNames["C06"] = []string{"image_nonempty_pending", "crash_in_flush", "crash_in_ack", "recovered_with_inprogress_flush", "recovered_with_inprogress_ack", "redelivered_unacked", "pq_reopen", "torn_header", "big_flush", "continued_after_recovery"}
 	register(&PropDef{
 		ID: "C06", Level: "fault_enumeration", QuickSec: 55, ThoroSec: 1200,
-		Rule: "each run = one seeded queue history (<=60 events, producer/consumer/ACK/clean reopen) on the simulated disk; evaluations = crash images: for EVERY op-log index after queue creation x subsets of the un-synced writes (all subsets up to 5 quick / 7 thorough pending ops, sampled above) x header tears; each image is opened by the real engine (file, standalone delegate, queue) and drained with the real reader. Oracle: the drained sequence is exactly model events [a,b), byte-identical and in order, with a in {ACKed total of completed ACKs} + {+n of an ACK in progress at the crash} and b in {events published by completed producer calls} + {events an in-progress producer call may publish}; Pending == b-a. Non-trivial = image with at least one pending op taken inside a producer or ACK call; distinct = (run, crash index, kept subset, tear).",
+		Rule: "each run = one seeded queue history (<=60 events, producer/consumer/ACK/clean reopen) on the simulated disk; evaluations = crash images: for EVERY op-log index after queue creation x subsets of the un-synced writes (all subsets up to 5 quick / 7 thorough pending ops, sampled above) x header tears; each image is opened by the real engine (file, standalone delegate, queue) and drained with the real reader. Oracle: the drained sequence is exactly model events [a,b), byte-identical and in order, with a in {ACKed total of completed ACKs} + {+n of an ACK in progress at the crash} and b in {events published by completed producer calls} + {events an in-progress producer call may publish}; Pending == b-a; every 12th image (and the final one) is then used further: a 24-operation producer/consumer/ACK/reopen history with the C05/C17 oracles runs on the recovered queue, followed by flush and drain. The enumeration of the run in progress when the batch budget ends is cut short. Non-trivial = image with at least one pending op taken inside a producer or ACK call; distinct = (run, crash index, kept subset, tear).",
 		Real: defaultReal, Stub: defaultStub, Assume: defaultAssume,
 		FaultKinds: []string{"crash at every I/O boundary", "lost un-synced page writes (subset enumeration)", "torn header write", "clean close/reopen"},
 		Body: c06Body,
